@@ -160,6 +160,12 @@ def jwe_call(op, entry, alg, enc, zipv, style, L, reg_obj=None):
         kw["algorithms"] = L
     elif style == "registry":
         kw["registry"] = reg_obj if reg_obj is not None else jwe.JWERegistry(algorithms=L)
+    elif style == "both":
+        # jwt over JWE: a JWERegistry instance selects the transport, the caller's list comes through algorithms=
+        if entry != "jwt":
+            return "skip", None
+        kw["registry"] = jwe.JWERegistry()
+        kw["algorithms"] = L
     hdr = {"alg": alg, "enc": enc}
     if zipv is not None:
         hdr["zip"] = zipv
@@ -169,7 +175,7 @@ def jwe_call(op, entry, alg, enc, zipv, style, L, reg_obj=None):
             if entry == "compact":
                 return "ok", jwe.encrypt_compact(hdr, pt, key, sender_key=sender, **kw)
             if entry == "jwt":
-                if style != "registry" or sender is not None:
+                if style not in ("registry", "both") or sender is not None:
                     return "skip", None  # jwt.encode has no sender_key parameter
                 return "ok", jwt.encode(hdr, {"a": 1}, key, **kw)
             cls = jwe.FlattenedJSONEncryption if entry == "flattened" else jwe.GeneralJSONEncryption
@@ -206,7 +212,7 @@ def jwe_call(op, entry, alg, enc, zipv, style, L, reg_obj=None):
         if entry == "compact":
             return "ok", jwe.decrypt_compact(tok, key, sender_key=sender, **kw)
         if entry == "jwt":
-            if style != "registry":
+            if style not in ("registry", "both"):
                 return "skip", None
             if sender is not None:
                 return "skip", None
@@ -330,9 +336,9 @@ def matrix(part):
                         L = list(dict.fromkeys(L + fixed))          # the other two names are allowed: only `name` decides
                     elif shape in ("single-other", "subset-without"):
                         L = [x for x in dict.fromkeys(L + fixed) if x != name]
-                for style in (["default"] if L is None else ["algorithms", "registry"]):
+                for style in (["default"] if L is None else ["algorithms", "registry", "both"] if L else ["algorithms", "registry"]):
                     for op in ("encrypt", "decrypt"):
-                        for entry in JWE_ENTRIES:
+                        for entry in (JWE_ENTRIES if style != "both" else ["jwt"]):
                             yield {"kind": "jwe", "op": op, "entry": entry, "names": dict(names), "style": style, "L": L, "shape": shape, "pos": pos}
         for name in [a for a in jweplan.ALGS if a != "A128KW"] + ["a128kw", "A512KW", ""]:
             for order in ("bad-last", "bad-first"):
